@@ -272,6 +272,11 @@ func (w *faultWriter) Write(p []byte) (int, error) {
 	return len(p), nil
 }
 
+// a destination that can also be synced (like *os.File): Sync succeeds - what failed was a Write
+type syncFaultWriter struct{ *faultWriter }
+
+func (w syncFaultWriter) Sync() error { return nil }
+
 func (e *Env) doWFaults(op *Op) {
 	impl := implCur
 	var segs []segment.Segment
@@ -361,7 +366,7 @@ func (e *Env) doWFaults(op *Op) {
 				"outcomes": [][]interface{}{{len(full0) + 1, "nil", len(full), false, false, clampSigned(int(rn))}}, "res": M{"kind": "ok"}})
 			continue
 		}
-		modes := []string{"fail", "fail1"} // fail1: one Write call fails, the destination works again afterwards
+		modes := []string{"fail", "fail1", "failsync"} // fail1: one Write call fails, the destination works again afterwards; failsync: "fail" on a destination that has a Sync method
 		if kind == "merge" {
 			modes = append(modes, "close", "retry")
 		}
@@ -381,6 +386,11 @@ func (e *Env) doWFaults(op *Op) {
 					step = s
 				}
 			}
+			if mode == "failsync" {
+				if s := L / 24; s > step {
+					step = s
+				}
+			}
 			if mode == "retry" {
 				run = mkRetry(buf)
 				if s := L / 12; s > step {
@@ -389,7 +399,7 @@ func (e *Env) doWFaults(op *Op) {
 			}
 			for k := 0; k <= L+1+step; k += step {
 				w := &faultWriter{once: -1, limit: -1, closeAt: -1, ch: make(chan struct{})}
-				if mode == "fail" || mode == "retry" {
+				if mode == "fail" || mode == "retry" || mode == "failsync" {
 					w.limit = k
 				} else if mode == "fail1" {
 					w.once = k
@@ -402,7 +412,11 @@ func (e *Env) doWFaults(op *Op) {
 				}
 				var n int64
 				var err error
-				cl := e.call(func() { n, err = run(w, w.ch) })
+				var dest io.Writer = w
+				if mode == "failsync" {
+					dest = syncFaultWriter{w}
+				}
+				cl := e.call(func() { n, err = run(dest, w.ch) })
 				es := "nil"
 				switch {
 				case cl == "blocked":
